@@ -261,7 +261,7 @@ impl<'a> OpGen<'a> {
 
     fn fresh_alias(&mut self) -> String {
         self.alias_counter += 1;
-        let styles = ["alias", "renamedField", "snake_alias", "X"];
+        let styles = ["alias", "renamedField", "snake_alias", "X", "_underscored"];
         format!("{}{}", styles[self.alias_counter % styles.len()], self.alias_counter)
     }
 
